@@ -30,7 +30,7 @@ THEOREMS = {
             "C20_multipolygon_from_geo", "C20_polygon_from_geo"],
     "C03": ["C03_record", "C03_decodes_conformant"],
     "C09": ["C09_finalize_irrelevant", "C09_files", "C09_finalize_complete", "C09_clean_finalize_silent", "C09_bulk_ending"],
-    "C10": ["C10_reject", "C10_erase", "C10_bulk_is_calls"],
+    "C10": ["C10_reject", "C10_erase", "C10_bulk_is_calls", "C10_complete_bulk_is_calls"],
     "C18": ["C18_size", "C18_record_len", "C18_record_bytes"],
     "C19": ["C19_decode_iff", "C19_image", "C19_injective", "C19_table", "C19_predicates"],
 }
